@@ -4,5 +4,5 @@ cd "$(dirname "$0")/.."
 export GOFLAGS=-mod=mod GOPROXY=off GOSUMDB=off GOTOOLCHAIN=local
 S=/tmp/verif-dbg; mkdir -p $S
 bin/instrument -repo ${VERIF_REPO:-/repo} -out $S/ov -add overlay_add 2>/dev/null
-cp go.mod $S/go.mod; : > $S/go.sum
+sed "s#=> /repo#=> ${VERIF_REPO:-/repo}#" go.mod > $S/go.mod; : > $S/go.sum
 go build -overlay $S/ov/overlay.json -modfile $S/go.mod -o $S/h-${1:-net} ./harness/${1:-net}
